@@ -30,8 +30,10 @@ CAUGHT=no; echo "$OUT" | grep -q "^VIOLATION" && CAUGHT=yes
 /venv/bin/python - "$PID" "$MK" "$CLEAN" "$MUT" "$TESTS" "$CAUGHT" "$SRC/meta.json" <<'PY'
 import json,sys
 pid,mk,clean,mut,tests,caught,meta=sys.argv[1:8]
-try: m=json.load(open(meta))
-except Exception: m={}
+try: m=json.load(open(f'/verif/seeded/{pid}-{mk}/meta.json'))   # what was recorded before (with notes) stays
+except Exception:
+    try: m=json.load(open(meta))
+    except Exception: m={}
 if tests=='skipped':
     try: tests=json.load(open(f'/verif/seeded/{pid}-{mk}/meta.json')).get('suite_with_patch',tests)
     except Exception: pass
